@@ -109,6 +109,7 @@ type multiCase struct {
 	// grep context options (0 = not given)
 	Before, After, Max int
 	SmallLL            bool // serverless: MaxLineLength 6000 instead of the default
+	GlobForm           int  // 0: shortest form; 1: '//' before the wildcards; 2: '/./' before them; 3: '/./' between them
 }
 
 // the class at index 4 is "around MaxLineLength" (see lineOf)
@@ -118,6 +119,7 @@ func genCase(t *rapid.T) multiCase {
 	var c multiCase
 	c.Serverless = rapid.IntRange(0, 4).Draw(t, "serverless") == 0
 	c.SmallLL = rapid.Bool().Draw(t, "small-ll")
+	c.GlobForm = rapid.SampledFrom([]int{0, 0, 0, 1, 2, 3}).Draw(t, "globform")
 	c.Grep = rapid.IntRange(0, 3).Draw(t, "grep") == 0
 	ns := rapid.IntRange(2, nServers).Draw(t, "nservers")
 	if c.Serverless {
@@ -247,6 +249,18 @@ func evalCase(c multiCase) lib.Outcome {
 	cfgPath := filepath.Join(cdir, "client.json")
 	lib.WriteCfg(cfgPath, lib.ServerCfg{MaxLineLength: llOf(c, 0), MaxConcurrentCats: 2})
 	glob := filepath.Join(cdir, "*", "*.log")
+	// the same files named by a glob that is not in its shortest form: the source id must not change
+	switch c.GlobForm {
+	case 1:
+		glob = cdir + "//*/*.log"
+	case 2:
+		glob = cdir + "/./*/*.log"
+	case 3:
+		glob = cdir + "/*/./*.log"
+	}
+	if c.GlobForm != 0 {
+		o.Classes = append(o.Classes, "glob-not-in-shortest-form")
+	}
 	bin := "dcat"
 	args := []string{"--noColor", "--logLevel", "error", "--cfg", cfgPath}
 	if c.Grep {
@@ -383,6 +397,6 @@ func tail(b []byte) string {
 
 func TestC07Interleave(t *testing.T) {
 	lib.Run(t, lib.Spec[multiCase]{Prop: "C07", Check: "interleave",
-		Rule: "dcat / dgrep --noColor (record mode) with one glob against 2..6 real servers over SSH (distinct host labels; each server may only serve its own directory) x 1..4 files each, or serverless over 2..5 files; 1..2000 tagged lines per source with lengths from 1 B to 70 KiB incl. a class around MaxLineLength (6000 on half of the servers, so longer lines arrive as numbered pieces; 1 MiB on the others, so records of up to 70 KiB span several transport reads); dgrep with and without --before/--after/--max; oracle: every output line is a well-formed log record or REMOTE|host|100|n|id|content with (host,id) a real source and content == piece n of that source; per source the sequence of n is exactly the index list the grep reference model prescribes (1,2,3,... for dcat), nothing missing or repeated; exit 0; non-trivial = >=2 sources with >=50 lines each, or a line > 8 KiB; distinct by case",
+		Rule: "dcat / dgrep --noColor (record mode) with one glob against 2..6 real servers over SSH (distinct host labels; each server may only serve its own directory) x 1..4 files each, or serverless over 2..5 files; 1..2000 tagged lines per source with lengths from 1 B to 70 KiB incl. a class around MaxLineLength (6000 on half of the servers, so longer lines arrive as numbered pieces; 1 MiB on the others, so records of up to 70 KiB span several transport reads); dgrep with and without --before/--after/--max; the glob in its shortest form or with '//' / '/./' in it; oracle: every output line is a well-formed log record or REMOTE|host|100|n|id|content with (host,id) a real source and content == piece n of that source; per source the sequence of n is exactly the index list the grep reference model prescribes (1,2,3,... for dcat), nothing missing or repeated; exit 0; non-trivial = >=2 sources with >=50 lines each, or a line > 8 KiB; distinct by case",
 		Gen:  genCase, Eval: evalCase})
 }
